@@ -31,12 +31,17 @@ example :
 
 /-- **downstream_conserved**: the bytes `Read` has returned, followed by the reader's carry-over
     buffer, the queued responses and the response the worker is about to queue, are exactly the
-    200 response bodies, in order. -/
+    200 response bodies, in order.  (`dropped` — a response given up by a worker that saw the
+    close while handing it over — is empty until `Close` has taken effect and the worker has
+    left its loop.) -/
 theorem downstream_conserved (fixed : Bool) (sid : Nat) (cs : List Choice) :
-    (run fixed (init sid) cs).readOut.flatten ++ (run fixed (init sid) cs).rdBuf
+    ((run fixed (init sid) cs).readOut.flatten ++ (run fixed (init sid) cs).rdBuf
         ++ (run fixed (init sid) cs).rdQ.flatten ++ pendingDown (run fixed (init sid) cs)
-      = (run fixed (init sid) cs).resps.flatten :=
-  (inv_run fixed _ cs (inv_init sid)).down
+        ++ (run fixed (init sid) cs).dropped.flatten
+      = (run fixed (init sid) cs).resps.flatten) ∧
+    ((run fixed (init sid) cs).dropped ≠ [] →
+      (run fixed (init sid) cs).closed = true ∧ exited (run fixed (init sid) cs) = true) :=
+  ⟨(inv_run fixed _ cs (inv_init sid)).down, (inv_run fixed _ cs (inv_init sid)).drop⟩
 
 /-- a 3-byte response read through a 2-byte buffer: 2 bytes out, 1 in the carry-over -/
 example :
